@@ -767,14 +767,25 @@ def join_states(an, a, b, frame, bb, widen=False):
                 elif not (ca_ or cb_):
                     r.cons.add(ps + d)
         # interval-only relations that the join would lose: phi <= x / x <= phi for symbols x whose bounds differ
-        for x in diff_syms:
+        if ca_ or cb_:
+            dsy = [x for x in (set(sa_.lo) | set(sa_.hi)) & (set(sb_.lo) | set(sb_.hi))
+                   if (sa_.lo.get(x) != sb_.lo.get(x) or sa_.hi.get(x) != sb_.hi.get(x)) and not x.startswith('phi(')][:40]
+        else:
+            dsy = diff_syms
+        for x in dsy:
             lx = Lin.sym(x)
-            ua, ub_ = a.ub(la_ - lx), b.ub(lb_ - lx)
+            ua, ub_ = sa_.ub(la_ - lx), sb_.ub(lb_ - lx)
             if ua is not None and ub_ is not None and ua <= 0 and ub_ <= 0:
-                r.cons.add(ps - lx)
-            ua, ub_ = a.ub(lx - la_), b.ub(lx - lb_)
+                if (ca_ or cb_) and owner is not None:
+                    guard_extra.setdefault(owner, set()).add(ps - lx)
+                elif not (ca_ or cb_):
+                    r.cons.add(ps - lx)
+            ua, ub_ = sa_.ub(lx - la_), sb_.ub(lx - lb_)
             if ua is not None and ub_ is not None and ua <= 0 and ub_ <= 0:
-                r.cons.add(lx - ps)
+                if (ca_ or cb_) and owner is not None:
+                    guard_extra.setdefault(owner, set()).add(lx - ps)
+                elif not (ca_ or cb_):
+                    r.cons.add(lx - ps)
     # symbols materialised during the join: bounds from the side states
     for v_ in late_syms:
         sy_ = set()
